@@ -1,2 +1,8 @@
 import Sio.Props.C11
-#print axioms Sio.C11.placeholder_stub
+#print axioms Sio.C11.erase
+#print axioms Sio.C11.erase_nothing_left
+#print axioms Sio.C11.erase_keeps_others
+#print axioms Sio.C11.erase_closed
+#print axioms Sio.C11.erase_history
+#print axioms Sio.C11.fresh
+#print axioms Sio.C11.fresh_history
